@@ -592,6 +592,30 @@ impl Oracle for RepeatOracle {
                             (None, None) => {}
                         }
                     }
+                    // and nothing else is produced in reaction to it: every solicited response transmitted in this step is a copy
+                    // of one transmitted before (a second, re-computed response after the echo would be "a mixture of two")
+                    if violation.is_none() {
+                        for r in step
+                            .received
+                            .iter()
+                            .filter(|r| r.bytes.len() >= 2 && r.bytes[1] == refapp::FUNC_RESPONSE)
+                        {
+                            if !self.transmitted.contains(&r.bytes) {
+                                verdict = 6;
+                                violation = Some(Violation::new(
+                                    "C05/iii echo-is-not-a-copy",
+                                    format!("non-read func={} state={}", func, ["idle", "sol-confirm-wait", "unsol-confirm-wait"][state]),
+                                    format!(
+                                        "step {}: the retransmitted function {} made the outstation transmit {} which equals no fragment transmitted before",
+                                        step.op_index,
+                                        func,
+                                        crate::verif::io::hex(&r.bytes)
+                                    ),
+                                ));
+                                break;
+                            }
+                        }
+                    }
                 } else if state == 1 {
                     // (iii) a READ repeated during a solicited confirm wait: whatever is sent in reaction is a copy (the echo of
                     // fragment n carries the series' sequence number request + n - 1, so every solicited response counts)
